@@ -726,10 +726,17 @@ func pcModel(init string) porcupine.Model {
 	}
 }
 
-func runConc(idx int, p *concPlan, stats *concStats) (mm *mismatch, nontrivial bool, orderSig string, inconclusive string) {
+func runConc(idx int, p *concPlan, stats *concStats) (mms []*mismatch, nontrivial bool, orderSig string, inconclusive string) {
 	st := state.New(nil)
 	var clock int64
 	tick := func() int64 { return atomic.AddInt64(&clock, 1) }
+	// locked runs f with the state lock held; the lock is released even when
+	// the code under test panics, so that one panic cannot wedge the others
+	locked := func(f func()) {
+		st.Lock()
+		defer st.Unlock()
+		f()
+	}
 
 	fail := func(kind string, detail map[string]interface{}) *mismatch {
 		w := map[string]interface{}{"part": "concurrent", "case_index": 1000000 + idx, "plan": p}
@@ -740,22 +747,31 @@ func runConc(idx int, p *concPlan, stats *concStats) (mm *mismatch, nontrivial b
 	}
 
 	// initial configuration
-	st.Lock()
-	itx := config.NewTransaction(st)
-	for _, w := range p.Init {
-		itx.Set(w.Snap, strings.Join(w.Path, "."), w.Val)
-	}
-	itx.Commit()
-	initDocs, err := readAllCommitted(st)
-	st.Unlock()
+	var initDocs map[string]doc
+	var err error
+	func() {
+		defer func() {
+			if r := recover(); r != nil {
+				err = fmt.Errorf("panic while committing the initial configuration: %v", r)
+			}
+		}()
+		locked(func() {
+			itx := config.NewTransaction(st)
+			for _, w := range p.Init {
+				itx.Set(w.Snap, strings.Join(w.Path, "."), w.Val)
+			}
+			itx.Commit()
+			initDocs, err = readAllCommitted(st)
+		})
+	}()
 	if err != nil {
-		return fail("read-error", map[string]interface{}{"err": err.Error()}), false, "", ""
+		return []*mismatch{fail("setup-error", map[string]interface{}{"err": err.Error()})}, false, "", ""
 	}
 	initVals := partValues(initDocs)
 
 	var wg sync.WaitGroup
 	events := make([][]concEvent, len(p.Goroutines))
-	fails := make([]*mismatch, len(p.Goroutines))
+	fails := make([][]*mismatch, len(p.Goroutines))
 	type gstat struct{ acc, rej, views, stale int }
 	gstats := make([]gstat, len(p.Goroutines))
 	var commitSeq int64
@@ -767,7 +783,7 @@ func runConc(idx int, p *concPlan, stats *concStats) (mm *mismatch, nontrivial b
 			defer wg.Done()
 			defer func() {
 				if r := recover(); r != nil {
-					fails[g] = fail("panic", map[string]interface{}{"goroutine": g, "panic": fmt.Sprint(r)})
+					fails[g] = append(fails[g], fail("panic", map[string]interface{}{"goroutine": g, "panic": fmt.Sprint(r)}))
 				}
 			}()
 			r := rand.New(rand.NewSource(p.seeds[g]))
@@ -786,36 +802,36 @@ func runConc(idx int, p *concPlan, stats *concStats) (mm *mismatch, nontrivial b
 			for ri, rd := range p.Goroutines[g] {
 				perturb()
 				if rd.Kind == "read" {
-					call := tick()
-					st.Lock()
 					var vals map[partKey]string
 					var rerr error
-					if rd.Mode == 0 {
-						tx := config.NewTransaction(st)
-						vals = map[partKey]string{}
-						for _, s := range snaps {
-							for _, k := range topKeys {
-								var v interface{}
-								e := tx.Get(s, k, &v)
-								switch {
-								case e == nil:
-									vals[partKey{s, k}] = canon(v)
-								case config.IsNoOption(e):
-									vals[partKey{s, k}] = ""
-								default:
-									rerr = e
+					call := tick()
+					locked(func() {
+						if rd.Mode == 0 {
+							tx := config.NewTransaction(st)
+							vals = map[partKey]string{}
+							for _, s := range snaps {
+								for _, k := range topKeys {
+									var v interface{}
+									e := tx.Get(s, k, &v)
+									switch {
+									case e == nil:
+										vals[partKey{s, k}] = canon(v)
+									case config.IsNoOption(e):
+										vals[partKey{s, k}] = ""
+									default:
+										rerr = e
+									}
 								}
 							}
+						} else {
+							docs, e := readAllCommitted(st)
+							rerr = e
+							vals = partValues(docs)
 						}
-					} else {
-						docs, e := readAllCommitted(st)
-						rerr = e
-						vals = partValues(docs)
-					}
-					st.Unlock()
+					})
 					ret := tick()
 					if rerr != nil {
-						fails[g] = fail("read-error", map[string]interface{}{"goroutine": g, "round": ri, "err": rerr.Error()})
+						fails[g] = append(fails[g], fail("read-error", map[string]interface{}{"goroutine": g, "round": ri, "err": rerr.Error()}))
 						return
 					}
 					events[g] = append(events[g], concEvent{client: g, call: call, ret: ret, read: true, vals: vals})
@@ -823,7 +839,8 @@ func runConc(idx int, p *concPlan, stats *concStats) (mm *mismatch, nontrivial b
 				}
 				// transaction round
 				var accepted []cwrite
-				doSet := func(tx *config.Transaction, w cwrite) {
+				var tx *config.Transaction
+				doSet := func(w cwrite) {
 					if err := tx.Set(w.Snap, strings.Join(w.Path, "."), w.Val); err != nil {
 						gstats[g].rej++
 					} else {
@@ -831,79 +848,86 @@ func runConc(idx int, p *concPlan, stats *concStats) (mm *mismatch, nontrivial b
 						accepted = append(accepted, w)
 					}
 				}
-				st.Lock()
-				tx := config.NewTransaction(st)
-				base, berr := readAllCommitted(st)
-				if rd.Mode == 0 {
-					for _, w := range rd.Writes {
-						doSet(tx, w)
+				var base map[string]doc
+				var berr error
+				locked(func() {
+					tx = config.NewTransaction(st)
+					base, berr = readAllCommitted(st)
+					if rd.Mode == 0 {
+						for _, w := range rd.Writes {
+							doSet(w)
+						}
 					}
-				}
-				st.Unlock()
+				})
 				if berr != nil {
-					fails[g] = fail("read-error", map[string]interface{}{"goroutine": g, "round": ri, "err": berr.Error()})
+					fails[g] = append(fails[g], fail("read-error", map[string]interface{}{"goroutine": g, "round": ri, "err": berr.Error()}))
 					return
 				}
 				perturb()
 				switch rd.Mode {
 				case 1:
 					for _, w := range rd.Writes {
-						st.Lock()
-						doSet(tx, w)
-						st.Unlock()
+						locked(func() { doSet(w) })
 						perturb()
 					}
 				case 2:
 					for _, w := range rd.Writes {
-						doSet(tx, w)
+						doSet(w)
 						perturb()
 					}
 				}
 				// isolation + read-own-writes while the others commit
 				wantView := fold(base, accepted)
-				if rd.Mode != 2 {
-					st.Lock()
-				}
-				for _, s := range snaps {
-					got, e := txRoot(tx, s)
-					gstats[g].views++
-					if want := canonDoc(wantView[s]); e != nil || got != want {
-						if rd.Mode != 2 {
-							st.Unlock()
+				viewOK := true
+				checkView := func() {
+					for _, s := range snaps {
+						got, e := txRoot(tx, s)
+						gstats[g].views++
+						if want := canonDoc(wantView[s]); e != nil || got != want {
+							viewOK = false
+							fails[g] = append(fails[g], fail("transaction-view", map[string]interface{}{"goroutine": g, "round": ri, "snap": s, "base": canonAll(base), "accepted_writes": accepted, "got": got, "want": want, "err": fmt.Sprint(e)}))
+							return
 						}
-						fails[g] = fail("transaction-view", map[string]interface{}{"goroutine": g, "round": ri, "snap": s, "base": canonAll(base), "accepted_writes": accepted, "got": got, "want": want, "err": fmt.Sprint(e)})
-						return
 					}
 				}
-				if rd.Mode != 2 {
-					st.Unlock()
+				if rd.Mode == 2 {
+					checkView()
+				} else {
+					locked(checkView)
+				}
+				if !viewOK {
+					return
 				}
 				perturb()
 				// commit
-				call := tick()
-				st.Lock()
-				pre, e1 := readAllCommitted(st)
-				tx.Commit()
-				post, e2 := readAllCommitted(st)
-				pos := atomic.AddInt64(&commitSeq, 1)
+				var pre, post map[string]doc
+				var e1, e2 error
+				var pos int64
 				var after []string
-				for _, s := range snaps {
-					got, e := txRoot(tx, s)
-					if e != nil {
-						got = "error: " + e.Error()
+				call := tick()
+				locked(func() {
+					pre, e1 = readAllCommitted(st)
+					tx.Commit()
+					post, e2 = readAllCommitted(st)
+					pos = atomic.AddInt64(&commitSeq, 1)
+					for _, s := range snaps {
+						got, e := txRoot(tx, s)
+						if e != nil {
+							got = "error: " + e.Error()
+						}
+						after = append(after, got)
 					}
-					after = append(after, got)
-				}
-				st.Unlock()
+				})
 				ret := tick()
 				if e1 != nil || e2 != nil {
-					fails[g] = fail("read-error", map[string]interface{}{"goroutine": g, "round": ri, "err": fmt.Sprint(e1, e2)})
+					fails[g] = append(fails[g], fail("read-error", map[string]interface{}{"goroutine": g, "round": ri, "err": fmt.Sprint(e1, e2)}))
 					return
 				}
+				// the under-lock comparison; the history goes on so that the
+				// client-boundary (porcupine) monitor judges it independently
 				want := fold(pre, accepted)
 				if canonAll(post) != canonAll(want) {
-					fails[g] = fail("commit-merge", map[string]interface{}{"goroutine": g, "round": ri, "base_at_creation": canonAll(base), "committed_before": canonAll(pre), "accepted_writes": accepted, "committed_after": canonAll(post), "want": canonAll(want)})
-					return
+					fails[g] = append(fails[g], fail("commit-merge", map[string]interface{}{"goroutine": g, "round": ri, "base_at_creation": canonAll(base), "committed_before": canonAll(pre), "accepted_writes": accepted, "committed_after": canonAll(post), "want": canonAll(want)}))
 				}
 				if len(accepted) > 0 {
 					if canonAll(pre) != canonAll(base) {
@@ -911,8 +935,8 @@ func runConc(idx int, p *concPlan, stats *concStats) (mm *mismatch, nontrivial b
 					}
 					for si, s := range snaps {
 						if after[si] != canonDoc(post[s]) {
-							fails[g] = fail("view-after-commit", map[string]interface{}{"goroutine": g, "round": ri, "snap": s, "got": after[si], "want": canonDoc(post[s])})
-							return
+							fails[g] = append(fails[g], fail("view-after-commit", map[string]interface{}{"goroutine": g, "round": ri, "snap": s, "got": after[si], "want": canonDoc(post[s])}))
+							break
 						}
 					}
 					events[g] = append(events[g], concEvent{client: g, call: call, ret: ret, writes: accepted})
@@ -922,20 +946,27 @@ func runConc(idx int, p *concPlan, stats *concStats) (mm *mismatch, nontrivial b
 		}(g)
 	}
 	wg.Wait()
-	for _, f := range fails {
-		if f != nil {
-			return f, false, "", ""
+	aborted := false
+	for _, fs := range fails {
+		for _, f := range fs {
+			mms = append(mms, f)
+			if !strings.HasSuffix(f.sig, ":commit-merge") && !strings.HasSuffix(f.sig, ":view-after-commit") {
+				aborted = true // a goroutine stopped early: the history is incomplete
+			}
 		}
+	}
+	if aborted {
+		return mms, false, "", ""
 	}
 
 	// final committed read by the main goroutine
+	var finalDocs map[string]doc
+	var ferr error
 	call := tick()
-	st.Lock()
-	finalDocs, ferr := readAllCommitted(st)
-	st.Unlock()
+	locked(func() { finalDocs, ferr = readAllCommitted(st) })
 	ret := tick()
 	if ferr != nil {
-		return fail("read-error", map[string]interface{}{"err": ferr.Error()}), false, "", ""
+		return append(mms, fail("read-error", map[string]interface{}{"err": ferr.Error()})), false, "", ""
 	}
 	all := []concEvent{{client: len(p.Goroutines), call: call, ret: ret, read: true, vals: partValues(finalDocs)}}
 	for g := range events {
@@ -952,7 +983,6 @@ func runConc(idx int, p *concPlan, stats *concStats) (mm *mismatch, nontrivial b
 
 	// split per (snap, top-level option)
 	parts := map[partKey][]porcupine.Operation{}
-	var order []string
 	for _, ev := range all {
 		if ev.read {
 			stats.reads++
@@ -962,7 +992,6 @@ func runConc(idx int, p *concPlan, stats *concStats) (mm *mismatch, nontrivial b
 			continue
 		}
 		stats.commits++
-		order = append(order, fmt.Sprint(ev.client))
 		per := map[partKey][]pcWrite{}
 		for _, w := range ev.writes {
 			pk := partKey{w.Snap, w.Path[0]}
@@ -1009,14 +1038,15 @@ func runConc(idx int, p *concPlan, stats *concStats) (mm *mismatch, nontrivial b
 				}
 				hist = append(hist, h)
 			}
-			return fail("not-linearizable", map[string]interface{}{"snap": pk.snap, "option": pk.top, "initial": initVals[pk], "history": hist}), nontrivial, orderSig, ""
+			mms = append(mms, fail("not-linearizable", map[string]interface{}{"snap": pk.snap, "option": pk.top, "initial": initVals[pk], "history": hist}))
+			return mms, nontrivial, orderSig, ""
 		case porcupine.Unknown:
 			stats.unknown++
 			inconclusive = fmt.Sprintf("porcupine timed out on concurrent history %d partition %s/%s (%d operations)", idx, pk.snap, pk.top, len(ops))
 		}
 	}
 	stats.histories++
-	return nil, nontrivial, orderSig, inconclusive
+	return mms, nontrivial, orderSig, inconclusive
 }
 
 // ---------------------------------------------------------------------------
@@ -1129,7 +1159,7 @@ func TestVerifC29(t *testing.T) {
 		}
 		r := kit.CaseRand("c29-conc", idx)
 		p := genConc(r)
-		mm, nontrivial, orderSig, inc := runConc(idx, p, &cs)
+		mms, nontrivial, orderSig, inc := runConc(idx, p, &cs)
 		c.Eval()
 		if nontrivial {
 			c.Nontrivial(kit.Sig("conc", kit.JSON(p), orderSig))
@@ -1140,7 +1170,7 @@ func TestVerifC29(t *testing.T) {
 		if inc != "" {
 			c.Inconclusive(inc)
 		}
-		if mm != nil {
+		for _, mm := range mms {
 			c.Violation(mm.sig, mm.witness)
 		}
 	}
